@@ -375,4 +375,4 @@ def run(sh):
             sh.fail(sig, detail, case, 'hidden')
     sh.search('from', from_case(), prop_from, quick=3000, thorough=80000)
     sh.search('in', in_case(), prop_in, quick=3000, thorough=80000)
-    sh.search('twins', twins_case(), prop_twins, quick=800, thorough=40000)
+    sh.search('twins', twins_case(), prop_twins, quick=400, thorough=40000)
